@@ -6,8 +6,8 @@ func init() {
 		Level:       "other",
 		Explanation: "Decided on pql.splitQueries with the path-sensitive fact engine: (attach) every store to subquery.sort/.take targets a subquery created on this path (chainSubquery result or fresh literal) or one for which the facts `target != nil`, `target.take == nil` and, for sorts, `canAttachSort(target.op)` hold on every abstract path - so a LIMIT never moves across a later operator and a sort is never merged into a projection/aggregation; (canattach) canAttachSort refuses ProjectOperator and SummarizeOperator (read from its type switch); (fresh) no subquery literal pre-sets sort/take; (top) the TopOperator case stores sort [op.Col] and take op.RowCount on the same subquery; (clauses/sortdefaults) see rule list. Not decided: equality of result tables on a database.",
 		Assumptions: commonAssumptions,
-		Rules:       []string{"C02/attach", "C02/canattach", "C02/fresh", "C02/top"},
-	}, ruleC02Attach)
+		Rules:       []string{"C02/attach", "C02/canattach", "C02/fresh", "C02/top", "C02/clauses", "C02/sortdefaults"},
+	}, ruleC02Attach, ruleC02Clauses, func(p *Program, r *Run) { ruleSortDefaults(p, r, "C02/sortdefaults") })
 	register(PropertyMeta{
 		ID:          "C09",
 		Level:       "other",
@@ -65,4 +65,25 @@ func init() {
 		Assumptions: commonAssumptions,
 		Rules:       []string{"C07/prec", "C07/kinds", "C07/assoc", "C07/in", "C07/sign", "C07/synonyms", "C07/sortdefaults"},
 	}, ruleC07Prec, ruleC07Assoc, ruleC07Shapes)
+	register(PropertyMeta{
+		ID:          "C01",
+		Level:       "other",
+		Explanation: "TODO",
+		Assumptions: commonAssumptions,
+		Rules:       []string{"C01/closed", "C01/needsparens"},
+	}, ruleC01Closed)
+	register(PropertyMeta{
+		ID:          "C04",
+		Level:       "other",
+		Explanation: "TODO",
+		Assumptions: commonAssumptions,
+		Rules:       []string{"C04/taint", "C04/handquote", "C04/escape", "C04/numbers"},
+	}, ruleC04)
+	register(PropertyMeta{
+		ID:          "C05",
+		Level:       "other",
+		Explanation: "TODO",
+		Assumptions: commonAssumptions,
+		Rules:       []string{"C05/balance", "C05/semicolon"},
+	}, ruleC05Balance)
 }
